@@ -794,21 +794,26 @@ def check_C15(ctx):
     thorough = ctx.tier == "thorough"
     for m in ("TimingLines", "MapPost"):
         sany(ctx, m)
-    name = "MC_MapPost_%s" % ("full" if thorough else "small")
-    cases = os.path.join(ctx.work, name + ".ndjson")
-    body = cases + ".body"
-    cfg = dict(spec="PSpec", invariants=["SortedStable", "ComboAfterBreak", "ClosedForms", "ShiftInvariant"],
-               constants=dict(Alpha="<-AlphaShape", Gens="<-GensTwo", MaxLines="0", MinLines="0", Emit="FALSE", MaxObjs="2",
-                              TimesSet='"%s"' % ("full" if thorough else "small"), EmitPost="TRUE"))
-    r = tlc(ctx, "MapPost", name, cfg, workers=14, timeout=3000, cases_file=body)
-    with open(cases, "w") as f:
-        f.write(json.dumps({"alpha": r["alpha"]}) + "\n")
-        with open(body) as b:
-            for ln in b:
-                f.write(ln)
-    os.remove(body)
-    summ = harness(ctx, ["mappost", "replay"], cases_file=cases, name="mappost-replay", timeout=3600)
-    report_mismatches(ctx, summ, "map-level processing differs from the MapPost specification")
+    runs = [("base", 2, "full" if thorough else "small"), ("wide", 3, "small" if thorough else "tiny")]
+    if thorough:
+        runs.append(("wide", 2, "full"))
+    for (profile, maxobjs, times) in runs:
+        name = "MC_MapPost_%s_%d_%s" % (profile, maxobjs, times)
+        cases = os.path.join(ctx.work, name + ".ndjson")
+        body = cases + ".body"
+        cfg = dict(spec="PSpec", invariants=["SortedStable", "ComboAfterBreak", "ClosedForms", "ShiftInvariant"],
+                   constants=dict(Alpha="<-AlphaShape", Gens="<-GensTwo", MaxLines="0", MinLines="0", Emit="FALSE", MaxObjs=str(maxobjs),
+                                  TimesSet='"%s"' % times, EmitPost="TRUE", Profile='"%s"' % profile))
+        r = tlc(ctx, "MapPost", name, cfg, workers=14, timeout=3000, cases_file=body)
+        with open(cases, "w") as f:
+            f.write(json.dumps({"alpha": r["alpha"]}) + "\n")
+            with open(body) as b:
+                for ln in b:
+                    f.write(ln)
+        os.remove(body)
+        summ = harness(ctx, ["mappost", "replay"], cases_file=cases, name="mappost-replay-" + profile, timeout=3600)
+        report_mismatches(ctx, summ, "map-level processing differs from the MapPost specification")
+        os.remove(cases)
     summ = harness(ctx, ["mappost", "relations", "--tier", ctx.tier], name="mappost-rel", timeout=3600)
     report_mismatches(ctx, summ, "shifting all times of a file changes more than the times")
     ctx.assumptions += ["exactness rule: beat lengths 200/400/800 (default 1000), slider multipliers 0.5/2, velocity points 0.5/1/2, path lengths "
